@@ -27,7 +27,15 @@ pub struct RustDocument {
 
 impl RustDocument {
     pub fn init(doc: &Document) -> Self {
+        Self::init_with_known_namespaces(doc, &[])
+    }
+
+    /// Start the document of an imported file. It knows the namespaces the importing document has
+    /// already met, so a namespace keeps the one abbreviation (and module) it was given first and
+    /// a new namespace gets an abbreviation that is not in use anywhere in the output.
+    pub fn init_with_known_namespaces(doc: &Document, known_namespaces: &[Rc<Namespace>]) -> Self {
         let mut me = Self::empty();
+        me.namespaces.extend(known_namespaces.iter().cloned());
         // parse namespaces on the root element
         collect_namespaces_on_node(doc.root_element(), &mut me);
         me
@@ -118,7 +126,7 @@ impl RustDocument {
                 .find(|ns| ns.namespace == namespace)
                 .cloned()
                 .unwrap_or_else(|| {
-                    let abbreviation = make_abbreviated_namespace(namespace, &self.target_namespaces);
+                    let abbreviation = make_abbreviated_namespace(namespace, &self.namespaces);
                     let rust_mod_name = create_mod_name_for_namespace(&abbreviation);
 
                     Rc::new(Namespace {
